@@ -108,9 +108,13 @@ fn geometry_class(w: &W, refs: &[R], t: &R) -> &'static str {
     }
 }
 
-fn check(rep: &mut Report, w: &W, text: &str, op: &OpSpec, refs: &[R]) {
-    let got = search(w, op, refs);
-    let line = format!("find {} {} {} {}", w.wsbits, op.proto(), fmt_ranges(refs), fmt_ranges(&w.known));
+fn check(rep: &mut Report, w: &W, text: &str, op: &OpSpec, refs_as_given: &[R]) {
+    // the search and the model get the reference set as it is given (a selection may be in it more than once); what is
+    // expected is stated for the set of its distinct members ("each once"; a reference set is a set)
+    let got = search(w, op, refs_as_given);
+    let line = format!("find {} {} {} {}", w.wsbits, op.proto(), fmt_ranges(refs_as_given), fmt_ranges(&w.known));
+    let distinct: Vec<R> = { let mut d: Vec<R> = vec![]; for r in refs_as_given { if !d.contains(r) { d.push(*r); } } d };
+    let refs: &[R] = &distinct;
     let ctx = vec![format!("text={:?}", text), line.clone()];
     let key = format!("{} {}", text, line);
     let got_s = match &got {
@@ -322,6 +326,8 @@ pub fn run(opts: &Opts) -> Report {
                     refs.push(r);
                 }
             }
+            // (a reference set may hold a selection more than once: it counts once)
+            if rng.chance(20) { let d = *rng.pick(&refs); refs.push(d); if rng.chance(30) { refs.insert(0, d); } rep.count("reference-set-with-a-repeated-member"); }
             for op in &ops {
                 if rng.chance(if opts.thorough() { 60 } else { 35 }) {
                     check(&mut rep, &w, &text, op, &refs);
